@@ -32,7 +32,9 @@ from common import Check, ensure_impl_path, run_model, run_model_parallel, vm_cr
 PROP = 'C09'
 SMALL = (2, 3, 4)        # 24 voxels: 192 bytes as float64 - inside one page
 BIG = (16, 16, 8)        # 2048 voxels: 16384 bytes as float64, 8192 as float32 - beyond one page
-EXT = {'N': '.nii', 'P': '.img', 'M': '.mgh'}
+# at most one non-unit axis: both C- and F-contiguous (a "contiguous copy" of such a map is the map)
+VECS = [(4096, 1, 1), (1, 4096, 1), (1, 1, 1, 4096)]
+EXT = {'N': '.nii', 'P': '.img', 'M': '.mgh', 'A': '.img'}
 
 S_C09B = ('get_fdata() of an image whose cached array is the memory map of a plain file (float64 NIfTI) that a later '
           'save has overwritten with a shorter file: SIGBUS when the data exceed a page (silently different values '
@@ -52,13 +54,13 @@ def measure_facts(workdir):
     from nibabel.freesurfer import MGHImage
     if FACTS:
         return FACTS
-    K = {'N': nib.Nifti1Image, 'P': nib.Nifti1Pair, 'M': MGHImage}
+    K = {'N': nib.Nifti1Image, 'P': nib.Nifti1Pair, 'M': MGHImage, 'A': nib.Spm2AnalyzeImage}
     d = os.path.join(workdir, 'facts')
     os.makedirs(d, exist_ok=True)
     aff = np.diag([2., 3, 4, 1])
     data = (np.arange(24) % 7 + 1).reshape(SMALL, order='F')
     off, foot = {}, {}
-    for f in 'NPM':
+    for f in 'NPMA':
         dt = np.float32
         fn = os.path.join(d, 'm' + EXT[f])
         K[f](data.astype(dt), aff).to_filename(fn)
@@ -68,7 +70,7 @@ def measure_facts(workdir):
         if not (0 <= off[f] < 4096 and 0 <= foot[f] < 4096):
             raise RuntimeError(f'unexpected layout of {f}: offset {off[f]} trailing {foot[f]}')
     conv = []
-    for a in 'NPM':
+    for a in 'NPM':          # SPM Analyze names share '.img' with the NIfTI pair: its histories stay in-class
         for b in 'NPM':
             if a == b:
                 continue
@@ -101,16 +103,16 @@ def gen_tables():
     finally:
         import shutil
         shutil.rmtree(wd, ignore_errors=True)
-    fm = {'N': 'Nii', 'P': 'Pair', 'M': 'Mgh'}
+    fm = {'N': 'Nii', 'P': 'Pair', 'M': 'Mgh', 'A': 'Spm'}
     txt = ['(* C09/Tables.v — GENERATED by harness/c09.py:gen_tables from the imported nibabel ($VERIF_REPO).',
            '   data offsets and trailing bytes of the image file per format, mmap.PAGESIZE, and the on-disk',
            '   dtype chosen when nib.save() converts between image classes.  Do not edit. *)',
            'From Coq Require Import ZArith List.', 'From NV Require Import C09.Model.', 'Import ListNotations.',
            'Open Scope Z_scope.',
            'Definition platform_off (f : fmt) : Z := match f with ' +
-           ' | '.join(f'{fm[k]} => {f["off"][k]}' for k in 'NPM') + ' end.',
+           ' | '.join(f'{fm[k]} => {f["off"][k]}' for k in 'NPMA') + ' end.',
            'Definition platform_foot (f : fmt) : Z := match f with ' +
-           ' | '.join(f'{fm[k]} => {f["foot"][k]}' for k in 'NPM') + ' end.',
+           ' | '.join(f'{fm[k]} => {f["foot"][k]}' for k in 'NPMA') + ' end.',
            f'Definition platform_page : Z := {f["page"]}.',
            'Definition platform_conv : list (fmt * fmt * dtype * dtype) := [' +
            '; '.join(f'({fm[a]}, {fm[b]}, {d.upper()}, {r.upper()})' for a, b, d, r in f['conv']) + '].',
@@ -150,6 +152,9 @@ CONFIGS = {
     'mgh': [path('a.mgh', 'M', (0, 'f4', 0)), path('b.mgz', 'M', (1, 'f4', 1)), path('c.mgh', 'M')],
     'cross': [path('a.nii', 'N', (0, 'f8', 0)), path('a.mgh', 'M', (1, 'f4', 1)), path('a.img', 'P')],
     'cross2': [path('a.img', 'P', (0, 'f8', 0)), path('a.nii', 'N'), path('a.mgz', 'M')],
+    # SPM2 Analyze triples (.img/.hdr/.mat): a.img has an oblique affine (only the .mat can hold it), b.img the
+    # affine its header gives by itself; all names of the set belong to this class
+    'spm': [path('a.img', 'A', (0, 'f8', 2)), path('b.img', 'A', (1, 'f8', 3)), path('c.img', 'A')],
     # one file reached by several names: saving onto "another name" is saving onto the mapped file
     'nii-links': [path('a.nii', 'N', (0, 'f8', 0)), path('s.nii', 'N', link=('sym', 0)), path('h.nii', 'N', link=('hard', 0))],
     'nii-links2': [path('a.nii', 'N', (0, 'f4', 0)), path('h.nii', 'N', link=('hard', 0)), path('a.nii', 'N', link=('abs', 0))],
@@ -161,9 +166,10 @@ CONFIGS = {
 }
 LINK_CONFIGS = [c for c in CONFIGS if 'links' in c]
 ARRAY_SLOT = dict(v=2, fmt='N', dt='f8', aff=2)
+ARRAY_SLOT_SPM = dict(v=2, fmt='A', dt='f8', aff=3)
 
 ALPHA = ['L00T', 'L00F', 'L01T', 'L10T', 'L11T', 'F0', 'F1', 'U0', 'E0', 'D0', 'D1', 'S00', 'S01', 'S10', 'S11', 'B0']
-ALL_OPS = [f'L{s}{p}{m}' for s in '01' for p in '012' for m in 'TF'] + [f'{k}{s}' for k in 'FUEDB' for s in '01'] + \
+ALL_OPS = [f'L{s}{p}{m}' for s in '01' for p in '012' for m in 'TF'] + [f'{k}{s}' for k in 'FUEDBX' for s in '01'] + \
     [f'S{s}{p}' for s in '01' for p in '012']
 
 
@@ -171,8 +177,8 @@ def model_line(hid, cfgname, shape, imgs, ops, facts, fix=1):
     paths = CONFIGS[cfgname]
     n = int(np.prod(shape))
     conv = ';'.join(f'{a}:{b}:{d}:{r}' for a, b, d, r in facts['conv']) or '-'
-    return (f"{hid} run {fix} {facts['page']} {n} " + ','.join(str(facts['off'][k]) for k in 'NPM') + ' ' +
-            ','.join(str(facts['foot'][k]) for k in 'NPM') + ' ' + conv + ' ' +
+    return (f"{hid} run {fix} {facts['page']} {n} " + ','.join(str(facts['off'][k]) for k in 'NPMA') + ' ' +
+            ','.join(str(facts['foot'][k]) for k in 'NPMA') + ' ' + conv + ' ' +
             ','.join(p['fmt'] + str(int(p['gz'])) for p in paths) + ' ' +
             ','.join(str(i) for i in file_ids(paths)) + ' ' +
             ','.join('-' if p['init'] is None else '%d:%s:%d' % p['init'] for p in paths if p['link'] is None) + ' ' +
@@ -315,6 +321,8 @@ def plan_cases(chk):
     first_loads = ['L00T', 'L00F', 'L01T']
     for cfgname in CONFIGS:
         for shape in (SMALL, BIG):
+            if not thorough and cfgname in LINK_CONFIGS and (shape == SMALL or cfgname.endswith(('2', '3'))):
+                continue      # quick: three of the link name sets get the generic depth-3 core, on big data only
             add(cfgname, shape, [None, None], [], 3 if not thorough else 4, first=first_loads)
     # several names of one file: also loads through the third name, and saves onto it
     for cfgname in LINK_CONFIGS:
@@ -323,13 +331,36 @@ def plan_cases(chk):
                 for sv in ('S00', 'S01', 'S02'):
                     plan.append((cfgname, shape, [None, None], [l, sv, 'F0'], 'exhaustive'))
                     plan.append((cfgname, shape, [None, None], [l, 'F0', sv, 'F0', 'B0'], 'exhaustive'))
-    for cfgname in ('nii', 'cross'):
+    for cfgname in ('nii', 'cross') if thorough else ('nii',):
         add(cfgname, SMALL, [None, ARRAY_SLOT], [], 3, first=first_loads + ['S10', 'S11', 'F1'])
+    # vector-like volumes (one non-unit axis, beyond a page): own-file saves and everything else of depth 2
+    for cfgname in ('nii', 'pair', 'mgh'):
+        for shape in VECS:
+            add(cfgname, shape, [None, None], [], 3, first=['L00T'])
+    for cfgname in ('nii-links', 'mgh-links', 'pair-links'):
+        for shape in VECS:
+            for ops in (['L01T', 'S00', 'F0'], ['L00T', 'S01', 'F0'], ['L02T', 'F0', 'S00', 'F0']):
+                plan.append((cfgname, shape, [None, None], ops, 'exhaustive'))
+    # SPM Analyze: different images (oblique / header-derived affine) saved onto the same names, any order
+    sv = ['S00', 'S01', 'S02', 'S10', 'S11', 'S12', 'F0', 'F1', 'X0']
+    for shape, depth in ((SMALL, 3), (BIG, 2)):
+        for seq in itertools.product(sv, repeat=depth):
+            plan.append(('spm', shape, [None, None], ['L00T', 'L11T'] + list(seq), 'exhaustive'))
+    for seq in itertools.product(['S10', 'S11', 'S12', 'L00T', 'S00', 'S02'], repeat=3):
+        plan.append(('spm', SMALL, [None, ARRAY_SLOT_SPM], list(seq), 'exhaustive'))
+    # a save that fails with ENOSPC (link to /dev/full), then healthy saves
+    for cfgname in ('nii', 'pair', 'mgh', 'spm', 'cross'):
+        for shape in (SMALL, BIG):
+            for ops in (['L00T', 'X0', 'S01', 'F0'], ['L00T', 'F0', 'X0', 'S00', 'F0'], ['L00T', 'D0', 'X0', 'S01', 'S02'],
+                        ['L00F', 'X0', 'X0', 'S02', 'B0'], ['L01T', 'X0', 'S00', 'L10T', 'F1']):
+                plan.append((cfgname, shape, [None, None], ops, 'exhaustive'))
     # a filled cache that is the memory map itself, then everything of depth 3
     for cfgname in ('nii', 'pair', 'cross'):
         for shape in (SMALL, BIG):
+            if not thorough and cfgname == 'cross':
+                continue
             add(cfgname, shape, [None, None], ['L00T', 'F0'], 3)
-    for shape in (SMALL, BIG):
+    for shape in (BIG,) if not thorough else (SMALL, BIG):
         add('nii', shape, [None, None], ['L00T', 'F0', 'L10T'], 3)
     # mmap=False: the cache is a copy, nothing below may crash or change under the image
     for shape in (BIG,) if not thorough else (SMALL, BIG):
@@ -344,13 +375,25 @@ def plan_cases(chk):
     names = list(CONFIGS)
     for _ in range(chk.n(1500, 20000)):
         cfgname = rng.choice(names)
-        shape = rng.choice([SMALL, BIG, BIG])
-        imgs = [None, ARRAY_SLOT if rng.random() < 0.3 else None]
+        shape = rng.choice([SMALL, BIG, BIG, VECS[rng.randrange(3)]])
+        imgs = [None, (ARRAY_SLOT_SPM if cfgname == 'spm' else ARRAY_SLOT) if rng.random() < 0.3 else None]
         depth = rng.randrange(4, 11)
         ops = [rng.choice(['L00T', 'L01T', 'L00F', 'L02T'])]
         w = [3 if o[0] in 'LS' else 2 if o[0] in 'FD' else 1 for o in ALL_OPS]
         ops += rng.choices(ALL_OPS, weights=w, k=depth - 1)
         plan.append((cfgname, shape, imgs, ops, 'random'))
+    # fault histories with an INTEGER on-disk dtype (I<slot> = set_data_dtype(int16)): the failing save has
+    # already put freshly computed scale factors into the header.  Outside the float-only symbolic model:
+    # judged by the direct predicate alone (reload within the quantisation step of the data held before)
+    for cfgname in ('nii', 'pair', 'spm'):
+        for shape in (SMALL, BIG):
+            for ops in (['L00T', 'I0', 'X0', 'S01'], ['L00T', 'I0', 'X0', 'S02', 'S00'], ['L00T', 'I0', 'S01', 'X0', 'S02'],
+                        ['L00F', 'I0', 'X0', 'X0', 'S01', 'L11T', 'F1']):
+                plan.append((cfgname, shape, [None, None], ops, 'fault_int16'))
+    for shape in (SMALL, BIG):
+        for ops in (['I1', 'X1', 'S11'], ['I1', 'X1', 'S10', 'S12'], ['I1', 'S12', 'X1', 'S11']):
+            plan.append(('nii', shape, [None, ARRAY_SLOT], ops, 'fault_int16'))
+            plan.append(('spm', shape, [None, ARRAY_SLOT_SPM], ops, 'fault_int16'))
     return plan, n_exh
 
 
@@ -363,19 +406,28 @@ def run(chk: Check):
                 'Exhaustive core: first op a load, then every sequence of depth 3 (quick) / 4 (thorough) over the 16-op '
                 'alphabet ' + ' '.join(ALPHA) + ' (minus sequences that address an image slot before it is loaded: '
                 'refused no-ops); and every depth-3 continuation of the prefixes [L00T F0] (cache = the '
-                'memory map) and [L00T F0 L10T]. Random: depth 4..10 over all 34 ops and 3 paths. A history is '
+                'memory map), [L00T F0 L10T] and [L00F F0]; vector-like volumes (4096,1,1), (1,4096,1), (1,1,1,4096) with own-file '
+                'saves; SPM2 Analyze triples with an oblique and a header-derived affine saved onto the same names in '
+                'every order; saves that fail with ENOSPC (link to /dev/full) followed by healthy ones; the same with an '
+                'int16 on-disk dtype (predicate only, not modelled). Random: depth 4..10 over all 38 ops and 3 paths. A history is '
                 'non-trivial when it contains at least one successful save; distinct by (configuration, size, history)')
     chk.assumptions = ['voxel values are small integers exact in float32/float64; every image of a history has the same '
                        'shape; on-disk dtypes float32/float64 only (integer dtypes would bring C02 scaling into play)',
                        'SIGBUS semantics of a private file mapping after truncation (Linux): touching a page wholly '
                        'beyond the page-rounded end of file kills the process - an assumed model of the OS, checked here '
                        'against the running kernel on every history',
-                       'one process, no concurrent writers; files written by nibabel itself']
+                       'one process, no concurrent writers; files written by nibabel itself',
+                       'affines are compared to 1e-2 absolute (which of four well separated affines; storage precision '
+                       'is C04); data saved with an integer on-disk dtype (fault histories only) to 0.05 (C02)']
     chk.trusted.append('OS mmap / truncate semantics (modelled: alias_read, roundup to mmap.PAGESIZE)')
     chk.trusted.append('class-conversion dtype table, data offsets and trailing bytes measured from the implementation '
                        'at run time (C09/Tables.v, fail-closed generator)')
+    import time
+    t0 = time.time()
     chk.build(gen_tables=gen_tables)
+    t1 = time.time()
     chk.run_probes()
+    t2 = time.time()
     if not chk.model_ok:
         return
     facts = measure_facts(chk.workdir)
@@ -389,7 +441,10 @@ def run(chk: Check):
     nproc = int(os.environ.get('VERIF_C09_PROCS', '10' if chk.tier == 'quick' else '12'))
     impl, stats = run_children(jobs, chk.workdir, nproc, crash_cap=60 if chk.tier == 'quick' else 1500)
     chk.extra['child_processes'] = stats
-    lines = [model_line(k, cfgname, shape, imgs, ops, facts) for k, (cfgname, shape, imgs, ops, tag) in enumerate(plan)]
+    chk.extra['timing_s'] = {'build_incl_lock_wait': round(t1 - t0, 1), 'probes': round(t2 - t1, 1),
+                             'children': round(time.time() - t2, 1)}
+    lines = [model_line(k, cfgname, shape, imgs, ops, facts) for k, (cfgname, shape, imgs, ops, tag) in enumerate(plan)
+             if tag != 'fault_int16']
     mod = run_model_parallel(PROP, lines, jobs=6)
 
     pv, cv = [], []
@@ -438,9 +493,15 @@ def run(chk: Check):
             else:
                 fails.append(f'step {kp} ({ops[kp]}): {what}')
         bad_other = [t for t in itoks if t.startswith('ref:other') or t.startswith('died:')]
-        if fails:
+        if fails and tag != 'fault_int16':
             pv.append((case, itoks, mtoks, '; '.join(fails)))
-        # ---- correspondence
+        # ---- correspondence (the integer-dtype fault histories are outside the model: predicate only)
+        if tag == 'fault_int16':
+            if fails:
+                pv.append((case, itoks, ['<not modelled>'], '; '.join(fails)))
+            elif not any(t == 'ref:nospace' for t in itoks) or not any(t.startswith('saved:') for t in itoks):
+                cv.append((case, itoks, ['<not modelled: expected a refused save and a successful one>']))
+            continue
         agree = len(mtoks) == len(itoks) and all(tok_match(m, i) for m, i in zip(mtoks, itoks))
         if not agree:
             chk.disagreements += 1
@@ -491,7 +552,7 @@ def run(chk: Check):
 
 # --------------------------------------------------------------------------- vm cross-check terms
 def coq_case(cfgname, shape, imgs, ops, mtoks):
-    fm = {'N': 'Nii', 'P': 'Pair', 'M': 'Mgh'}
+    fm = {'N': 'Nii', 'P': 'Pair', 'M': 'Mgh', 'A': 'Spm'}
     paths = CONFIGS[cfgname]
     n = int(np.prod(shape))
     ps = '[' + '; '.join(f"mkP {fm[p['fmt']]} {'true' if p['gz'] else 'false'}" for p in paths) + ']'
@@ -509,7 +570,7 @@ def coq_case(cfgname, shape, imgs, ops, mtoks):
             return f"Load {t[1]}%nat {t[2]}%nat {'true' if t[3] == 'T' else 'false'}"
         if k == 'S':
             return f'Save {t[1]}%nat {t[2]}%nat'
-        return {'F': 'Fdata', 'U': 'Uncache', 'E': 'EditHdr', 'D': 'SetDtype', 'B': 'ToBytes'}[k] + f' {t[1]}%nat'
+        return {'F': 'Fdata', 'U': 'Uncache', 'E': 'EditHdr', 'D': 'SetDtype', 'B': 'ToBytes', 'X': 'SaveFull'}[k] + f' {t[1]}%nat'
 
     def v(x):
         return 'None' if x == 'G' else f'(Some {x}%nat)'
@@ -526,7 +587,8 @@ def coq_case(cfgname, shape, imgs, ops, mtoks):
             return f'OBytes {v(p[1])} {p[2].upper()} {p[3]}%nat'
         if p[0] == 'ref':
             return 'ORefused ' + {'noimage': 'ENoImage', 'nofile': 'ENoFile', 'short_read': 'EShortRead',
-                                  'no_conversion': 'ENoConversion', 'not_serializable': 'ENotSerializable'}[p[1]]
+                                  'no_conversion': 'ENoConversion', 'not_serializable': 'ENotSerializable',
+                                  'nospace': 'ENoSpace'}[p[1]]
         return {'crash': 'OCrash', 'dead': 'ODead'}[p[0]]
 
     return (f"check_case (platform_cfg {n} {ps} {fids} true) (mkW {fs} {im} false) "
@@ -560,7 +622,8 @@ def replay(chk, obj):
     print('predicate lines:', r['pred'])
     import shutil
     shutil.rmtree(chk.workdir, ignore_errors=True)
-    bad = r['status'] == 'crashed' or bool(r['pred']) or len(mtoks) != len(itoks) or \
-        not all(tok_match(m, i) for m, i in zip(mtoks, itoks))
+    modelled = not any(t[0] == 'I' for t in case['ops'])      # int16 fault histories: predicate only
+    bad = r['status'] == 'crashed' or bool(r['pred']) or (modelled and (len(mtoks) != len(itoks) or
+                                                                          not all(tok_match(m, i) for m, i in zip(mtoks, itoks))))
     print('property/correspondence fails on this history' if bad else 'holds on this history')
     return 1 if bad else 0
